@@ -32,11 +32,27 @@ use vrp_core::utils::Either;
 /// fresh here because every case runs in its own thread.
 struct ScriptedRandom {
     state: AtomicU64,
+    /// optional record of every call with its result (case flag `trace`, taken per history step; C04 stream `c04_ops`
+    /// feeds the draws of the real run to the operator programs of the Coq model)
+    log: std::sync::Mutex<Option<Vec<Value>>>,
 }
 
 impl ScriptedRandom {
     fn new(seed: u64) -> Self {
-        Self { state: AtomicU64::new(seed) }
+        Self { state: AtomicU64::new(seed), log: std::sync::Mutex::new(None) }
+    }
+    fn start_log(&self) {
+        *self.log.lock().unwrap() = Some(vec![]);
+    }
+    fn take_log(&self) -> Vec<Value> {
+        self.log.lock().unwrap().take().unwrap_or_default()
+    }
+    fn record(&self, entry: Value) {
+        if let Some(log) = self.log.lock().unwrap().as_mut() {
+            if log.len() < 4000 {
+                log.push(entry);
+            }
+        }
     }
     fn next(&self) -> u64 {
         let s = self.state.fetch_add(0x9E3779B97F4A7C15, AtomicOrdering::SeqCst).wrapping_add(0x9E3779B97F4A7C15);
@@ -53,32 +69,44 @@ impl ScriptedRandom {
 impl Random for ScriptedRandom {
     fn uniform_int(&self, min: i32, max: i32) -> i32 {
         if min == max {
+            self.record(json!(["ui", min, max, min]));
             return min;
         }
         assert!(min < max);
-        min + (self.next() % ((max as i64 - min as i64 + 1) as u64)) as i32
+        let r = min + (self.next() % ((max as i64 - min as i64 + 1) as u64)) as i32;
+        self.record(json!(["ui", min, max, r]));
+        r
     }
     fn uniform_real(&self, min: Float, max: Float) -> Float {
         if (min - max).abs() < Float::EPSILON {
+            self.record(json!(["ur", format!("{:?}", min), format!("{:?}", max), format!("{:?}", min)]));
             return min;
         }
         assert!(min < max);
-        min + self.unit() * (max - min)
+        let r = min + self.unit() * (max - min);
+        self.record(json!(["ur", format!("{:?}", min), format!("{:?}", max), format!("{:?}", r)]));
+        r
     }
     fn is_head_not_tails(&self) -> bool {
-        self.next() & 1 == 1
+        let r = self.next() & 1 == 1;
+        self.record(json!(["hnt", r]));
+        r
     }
     fn is_hit(&self, probability: Float) -> bool {
-        self.unit() < probability.clamp(0., 1.)
+        let r = self.unit() < probability.clamp(0., 1.);
+        self.record(json!(["hit", format!("{:?}", probability), r]));
+        r
     }
     fn weighted(&self, weights: &[usize]) -> usize {
-        weights
+        let r = weights
             .iter()
             .zip(0_usize..)
             .map(|(&weight, index)| (-self.uniform_real(0., 1.).max(1e-300).ln() / weight as Float, index))
             .min_by(|a, b| a.0.partial_cmp(&b.0).unwrap())
             .unwrap()
-            .1
+            .1;
+        self.record(json!(["w", weights.len(), r]));
+        r
     }
     fn get_rng(&self) -> RandomGen {
         RandomGen::new_repeatable()
@@ -114,6 +142,8 @@ struct Built {
     vidx: HashMap<String, i64>,
     names: Vec<&'static str>, // objective layer names, in goal order
     shared: Option<Feature>,  // C05 stream `shared`: the shared-resource reload feature (its constraint is the read-out of the cached availability)
+    rnd: Arc<ScriptedRandom>, // the same generator as env.random, kept for its call log (case flag `trace`)
+    full_rebuild: bool,       // C05 stream `c05_feat` (case key `feat`): "recompute" keeps the pending lists AND runs the route-level handlers
 }
 
 fn jid_of(s: &str) -> i64 {
@@ -273,6 +303,37 @@ fn rebuild_pending(ctx: &InsertionContext) -> InsertionContext {
     fresh
 }
 
+/// C05 stream `c05_feat`: the marker jobs of the recharge feature (what vrp-pragmatic stores as job type "recharge" + vehicle id)
+struct RechargeOwnerKey;
+
+fn is_recharge_single(single: &Single) -> bool {
+    single.dimens.get_value::<RechargeOwnerKey, String>().is_some()
+}
+
+/// "recompute from the bare tours" for the `c05_feat` stream: the pending lists are kept (recharge / reload markers live in
+/// `ignored`), every tour gets an EMPTY cache and the stale flag; then GoalContext::accept_route_state on every tour (clear,
+/// the route-level handler of every feature in goal order, unset) and the solution-level handlers (restore).
+fn rebuild_full(ctx: &InsertionContext) -> InsertionContext {
+    let s = &ctx.solution;
+    let solution = SolutionContext {
+        required: s.required.clone(),
+        ignored: s.ignored.clone(),
+        unassigned: s.unassigned.clone(),
+        locked: s.locked.clone(),
+        routes: s.routes.iter().map(|rc| RouteContext::new_with_state(rc.route().deep_copy(), RouteState::default())).collect(),
+        registry: s.registry.deep_copy(),
+        state: SolutionState::default(),
+    };
+    let mut fresh = InsertionContext { problem: ctx.problem.clone(), solution, environment: ctx.environment.clone() };
+    let goal = fresh.problem.goal.clone();
+    fresh.solution.routes.iter_mut().for_each(|rc| {
+        let _ = rc.state_mut();
+        goal.accept_route_state(rc);
+    });
+    fresh.restore();
+    fresh
+}
+
 fn vehicle_from(v: &Value, id: &str) -> Vehicle {
     let costs = i64s_of(&v["costs"]);
     let mut dimens = Dimensions::default();
@@ -362,11 +423,32 @@ fn build(case: &Value) -> GenericResult<Built> {
     } else {
         None
     };
+    // C05 stream `c05_feat`: marker jobs of the simple reload feature (`reload.reloads`) and of the recharge feature
+    // (`recharge.stations`): one single per marker, owned by a vehicle, as vrp-pragmatic builds them
+    if let Some(rs) = case["reload"]["reloads"].as_array() {
+        for r in rs {
+            let mut dimens = Dimensions::default();
+            dimens.set_job_id(format!("j{}", i64_of(&r["id"])));
+            dimens.set_value::<ReloadOwnerKey, String>(format!("v{}", i64_of(&r["vehicle"])));
+            jobs.push(Job::Single(Arc::new(Single { places: r["places"].as_array().unwrap().iter().map(place_of).collect(), dimens })));
+        }
+    }
+    if let Some(rs) = case["recharge"]["stations"].as_array() {
+        for r in rs {
+            let mut dimens = Dimensions::default();
+            dimens.set_job_id(format!("j{}", i64_of(&r["id"])));
+            dimens.set_value::<RechargeOwnerKey, String>(format!("v{}", i64_of(&r["vehicle"])));
+            jobs.push(Job::Single(Arc::new(Single { places: r["places"].as_array().unwrap().iter().map(place_of).collect(), dimens })));
+        }
+    }
+    // the job index of the problem (known after the first build), for the tour compactness objective
+    let jobs_index: RefCell<Option<Arc<Jobs>>> = RefCell::new(None);
 
     let feats = &case["features"];
     let on = |k: &str| feats[k].as_bool().unwrap_or(false);
     let seed = case["seed"].as_u64().unwrap_or(1);
-    let random: Arc<dyn Random> = Arc::new(ScriptedRandom::new(seed));
+    let rnd = Arc::new(ScriptedRandom::new(seed));
+    let random: Arc<dyn Random> = rnd.clone();
     let quota = Arc::new(StepQuota { limit: std::sync::atomic::AtomicI64::new(-1), calls: std::sync::atomic::AtomicI64::new(0) });
     let env = Arc::new(Environment::new(
         random,
@@ -391,6 +473,57 @@ fn build(case: &Value) -> GenericResult<Built> {
             features.push(create_tour_order_soft_feature("order", Either::Left(f))?);
             names.push("order");
         }
+        // C05 stream `c05_feat`: further objective features `features.objectives = [{kind, pos}]`, listed - as vrp-pragmatic
+        // does - in objective order BEFORE the capacity feature; pos = "before_cost" | "after_cost"
+        let extra_objectives = |pos: &str, features: &mut Vec<Feature>, names: &mut Vec<&'static str>| -> GenericResult<()> {
+            for o in feats["objectives"].as_array().map(|a| a.as_slice()).unwrap_or(&[]) {
+                if o["pos"].as_str().unwrap_or("after_cost") != pos {
+                    continue;
+                }
+                let (name, feature): (&'static str, Option<Feature>) = match o["kind"].as_str().unwrap_or("") {
+                    "balance_max_load" => (
+                        "balance_max_load",
+                        Some(create_max_load_balanced_feature::<SingleDimLoad>(
+                            "balance_max_load",
+                            |loaded, capacity| loaded.value as Float / capacity.value as Float,
+                            |vehicle| vehicle.dimens.get_vehicle_capacity().expect("vehicle has no capacity defined"),
+                        )?),
+                    ),
+                    "balance_activities" => ("balance_activities", Some(create_activity_balanced_feature("balance_activities")?)),
+                    "balance_distance" => ("balance_distance", Some(create_distance_balanced_feature("balance_distance")?)),
+                    "balance_duration" => ("balance_duration", Some(create_duration_balanced_feature("balance_duration")?)),
+                    "fast_service" => (
+                        "fast_service",
+                        Some(
+                            FastServiceFeatureBuilder::new("fast_service")
+                                .set_transport(transport.clone())
+                                .set_activity(activity.clone())
+                                .set_demand_type_fn(|single| {
+                                    let demand: Option<&Demand<SingleDimLoad>> = single.dimens.get_job_demand();
+                                    demand.map(|d| d.get_type())
+                                })
+                                .set_is_filtered_job(|job| job.as_single().is_some_and(|s| is_reload_single(s.as_ref())))
+                                .build()?,
+                        ),
+                    ),
+                    // needs the job index: absent in the preliminary goal the problem is first built with
+                    "compact" => (
+                        "compact",
+                        match jobs_index.borrow().as_ref() {
+                            Some(jobs) => Some(create_tour_compactness_feature("compact", jobs.clone(), o["radius"].as_u64().unwrap_or(2).max(1) as usize)?),
+                            None => None,
+                        },
+                    ),
+                    other => panic!("unknown objective kind {other}"),
+                };
+                if let Some(feature) = feature {
+                    features.push(feature);
+                    names.push(name);
+                }
+            }
+            Ok(())
+        };
+        extra_objectives("before_cost", &mut features, &mut names)?;
         features.push(
             TransportFeatureBuilder::new("transport")
                 .set_transport_cost(transport.clone())
@@ -399,8 +532,21 @@ fn build(case: &Value) -> GenericResult<Built> {
                 .build_minimize_cost()?,
         );
         names.push("cost");
+        extra_objectives("after_cost", &mut features, &mut names)?;
         match shared.as_ref() {
             Some(f) => features.push(f.clone()),
+            None if case["reload"].is_object() => features.push(
+                ReloadFeatureFactory::<SingleDimLoad>::new("capacity")
+                    .set_capacity_code(ViolationCode(2))
+                    .set_load_schedule_threshold(|capacity: &SingleDimLoad| *capacity * 0.9)
+                    .set_is_reload_single(is_reload_single)
+                    .set_belongs_to_route(|route: &Route, job: &Job| {
+                        job.as_single().is_some_and(|single| {
+                            single.dimens.get_value::<ReloadOwnerKey, String>().is_some_and(|v| Some(v) == route.actor.vehicle.dimens.get_vehicle_id())
+                        })
+                    })
+                    .build_simple()?,
+            ),
             None => features.push(CapacityFeatureBuilder::<SingleDimLoad>::new("capacity").set_violation_code(ViolationCode(2)).build()?),
         }
         if on("compat") {
@@ -420,6 +566,29 @@ fn build(case: &Value) -> GenericResult<Built> {
                 limit_of(case, "dur_limit"),
             )?);
         }
+        if case["recharge"].is_object() {
+            let limit = limit_of(case, "recharge_limit");
+            features.push(
+                RechargeFeatureBuilder::new("recharge")
+                    .set_violation_code(ViolationCode(20))
+                    .set_transport(transport.clone())
+                    .set_is_recharge_single(is_recharge_single)
+                    .set_belongs_to_route(|route: &Route, job: &Job| {
+                        job.as_single().is_some_and(|single| {
+                            single.dimens.get_value::<RechargeOwnerKey, String>().is_some_and(|v| Some(v) == route.actor.vehicle.dimens.get_vehicle_id())
+                        })
+                    })
+                    .set_distance_limit(move |actor: &Actor| limit(actor))
+                    .build()?,
+            );
+        }
+        if on("order_hard") {
+            let orders = orders.clone();
+            let f: SingleTourOrderFn = Arc::new(move |s: &Single| {
+                s.dimens.get_job_id().and_then(|id| orders.get(id)).map(|v| OrderResult::Value(*v)).unwrap_or(OrderResult::Default)
+            });
+            features.push(create_tour_order_hard_feature("order_hard", ViolationCode(19), Either::Left(f))?);
+        }
         if let Some((fleet, locks)) = fleet {
             if !locks.is_empty() {
                 features.push(create_locked_jobs_feature("locked", fleet, locks, ViolationCode(17))?);
@@ -436,6 +605,7 @@ fn build(case: &Value) -> GenericResult<Built> {
         .with_transport_cost(transport.clone())
         .with_activity_cost(activity.clone())
         .build()?;
+    *jobs_index.borrow_mut() = Some(p0.jobs.clone());
 
     // locks: [{vehicle: idx, jobs: [ids], order: "strict"|"sequence"|"any"}]
     let by_id: HashMap<i64, Job> = p0.jobs.all().iter().map(|j| (job_num(j), j.clone())).collect();
@@ -466,7 +636,7 @@ fn build(case: &Value) -> GenericResult<Built> {
         transport: p0.transport.clone(),
         extras: p0.extras.clone(),
     });
-    Ok(Built { problem, env, quota, vidx, names, shared })
+    Ok(Built { problem, env, quota, vidx, names, shared, rnd, full_rebuild: case["feat"].as_bool().unwrap_or(false) })
 }
 
 // ------------------------------------------------------------------ dumps
@@ -588,13 +758,22 @@ fn dump(b: &Built, ctx: &InsertionContext, with_fresh: bool) -> Value {
         d["partial"] = json!(s.get_jobs_amount() != ctx.problem.jobs.size());
     }
     if with_fresh {
-        let fresh = if b.shared.is_some() { rebuild_pending(ctx) } else { rebuild(ctx) };
+        let fresh = if b.full_rebuild {
+            rebuild_full(ctx)
+        } else if b.shared.is_some() {
+            rebuild_pending(ctx)
+        } else {
+            rebuild(ctx)
+        };
         let fr: Vec<Value> = fresh
             .solution
             .routes
             .iter()
             .map(|rc| {
                 let mut r = json!({"v": actor_idx(b, rc), "dig": rc.state().verif_digest(), "sched": sched_of(rc)});
+                if b.full_rebuild {
+                    r["jobs"] = json!(rc.route().tour.all_activities().map(|a| a.retrieve_job().map(|j| job_num(&j)).unwrap_or(-1)).collect::<Vec<_>>());
+                }
                 if b.shared.is_some() {
                     r["shared"] = shared_readout(b, &fresh.solution, rc);
                     r["jobs"] = json!(rc.route().tour.all_activities().map(|a| a.retrieve_job().map(|j| job_num(&j)).unwrap_or(-1)).collect::<Vec<_>>());
@@ -606,6 +785,8 @@ fn dump(b: &Built, ctx: &InsertionContext, with_fresh: bool) -> Value {
             "routes": fr,
             "sdig": fresh.solution.state.verif_digest(),
             "fit": fresh.problem.goal.fitness(&fresh).map(fit_out).collect::<Vec<_>>(),
+            // "two solutions with identical tours compare equal": GoalContext::total_order(live, rebuilt from the same tours)
+            "cmp": format!("{:?}", ctx.problem.goal.total_order(ctx, &fresh)),
         });
     }
     d
@@ -681,6 +862,33 @@ fn shared_observation(b: &Built, ctx: &InsertionContext) -> Value {
         })
         .collect();
     json!({"partial": s.get_jobs_amount() != ctx.problem.jobs.size(), "routes": routes})
+}
+
+/// `c05_feat` stream, after a single applied insertion: every tour with its activities (the plugin / the Coq model recompute
+/// the cached values from them), the live digest, and digest + schedule of the context rebuilt from the same tours (left out
+/// for a tour which the rebuild's own solution-level clean-up changed); the fitness vector read live (objectives that read
+/// per-route caches only - fast service - are a read-out of those caches at any time)
+fn feat_observation(b: &Built, ctx: &InsertionContext) -> Value {
+    let s = &ctx.solution;
+    let fresh = rebuild_full(ctx);
+    let by_actor: HashMap<i64, &RouteContext> = fresh.solution.routes.iter().map(|rc| (actor_idx(b, rc), rc)).collect();
+    let ids = |rc: &RouteContext| rc.route().tour.all_activities().map(|a| a.retrieve_job().map(|j| job_num(&j)).unwrap_or(-1)).collect::<Vec<_>>();
+    let routes: Vec<Value> = s
+        .routes
+        .iter()
+        .map(|rc| {
+            let v = actor_idx(b, rc);
+            let mut r = json!({"v": v, "acts": rc.route().tour.all_activities().map(act_dump).collect::<Vec<_>>(),
+                               "dig": rc.state().verif_digest()});
+            if let Some(f) = by_actor.get(&v).filter(|f| ids(f) == ids(rc)) {
+                r["fresh_dig"] = json!(f.state().verif_digest());
+                r["fresh_sched"] = json!(sched_of(f));
+            }
+            r
+        })
+        .collect();
+    json!({"routes": routes, "fit": ctx.problem.goal.fitness(ctx).map(fit_out).collect::<Vec<_>>(),
+           "req": s.required.iter().map(job_num).collect::<Vec<_>>()})
 }
 
 // ------------------------------------------------------------------ operators
@@ -814,10 +1022,11 @@ fn run_case_inner(case: &Value) -> Value {
     let b = build(case).expect("problem");
     let rctx = refinement_ctx(&b);
     let observe = case["observe"].as_bool().unwrap_or(false);
+    let trace = case["trace"].as_bool().unwrap_or(false);
 
     // observer: cached vs recomputed after every single applied insertion
     let observed: Rc<RefCell<(usize, Vec<Value>)>> = Rc::new(RefCell::new((0, vec![])));
-    let bref: Rc<Built> = Rc::new(Built { problem: b.problem.clone(), env: b.env.clone(), quota: b.quota.clone(), vidx: b.vidx.clone(), names: b.names.clone(), shared: b.shared.clone() });
+    let bref: Rc<Built> = Rc::new(Built { problem: b.problem.clone(), env: b.env.clone(), quota: b.quota.clone(), vidx: b.vidx.clone(), names: b.names.clone(), shared: b.shared.clone(), rnd: b.rnd.clone(), full_rebuild: b.full_rebuild });
     let stage: Rc<RefCell<String>> = Rc::new(RefCell::new("init".to_string()));
     let shared_obs: Rc<RefCell<Vec<Value>>> = Rc::new(RefCell::new(vec![]));
     if observe {
@@ -826,6 +1035,18 @@ fn run_case_inner(case: &Value) -> Value {
         let stage = stage.clone();
         let shared_obs = shared_obs.clone();
         verif_hooks::set_insertion_observer(Some(Box::new(move |ctx: &InsertionContext| {
+            if bref.full_rebuild {
+                let mut o = observed.borrow_mut();
+                o.0 += 1;
+                let mut so = shared_obs.borrow_mut();
+                if so.len() < 40 {
+                    let mut rec = feat_observation(&bref, ctx);
+                    rec["stage"] = json!(stage.borrow().clone());
+                    rec["n"] = json!(o.0);
+                    so.push(rec);
+                }
+                return;
+            }
             if bref.shared.is_some() {
                 let mut o = observed.borrow_mut();
                 o.0 += 1;
@@ -868,10 +1089,17 @@ fn run_case_inner(case: &Value) -> Value {
         *stage.borrow_mut() = format!("step{k}:{}", op["op"].as_str().unwrap_or(""));
         let before = dump(&b, &state, false).to_string();
         b.quota.arm(op["quota"].as_i64().unwrap_or(-1));
+        if trace {
+            b.rnd.start_log();
+        }
         let (next, note) = apply(&b, &rctx, &state, op);
+        let rand_log = if trace { Some(b.rnd.take_log()) } else { None };
         b.quota.arm(-1);
         let after = dump(&b, &state, false).to_string();
         let mut st = json!({"op": op["op"], "note": note, "after": dump(&b, &next, true)});
+        if let Some(l) = rand_log {
+            st["rand"] = json!(l);
+        }
         if before != after {
             st["parent_changed"] = json!({"before": serde_json::from_str::<Value>(&before).unwrap(),
                                           "after": serde_json::from_str::<Value>(&after).unwrap()});
@@ -884,7 +1112,9 @@ fn run_case_inner(case: &Value) -> Value {
     }
     let o = observed.borrow();
     let mut res = json!({"names": b.names, "init": init, "steps": steps, "observations": o.0, "observed_mismatches": o.1});
-    if b.shared.is_some() {
+    if b.full_rebuild {
+        res["feat_observations"] = json!(*shared_obs.borrow());
+    } else if b.shared.is_some() {
         res["shared_observations"] = json!(*shared_obs.borrow());
     }
     res
